@@ -196,9 +196,10 @@ def structural(prop="C17"):
                   desc="filename is the stem of the source file and location its directory relative to the top of the page directory (hypothesis of the PageNode.path contract)",
                   detail="" if ok else "assignments not found in this form"))
     ord_ = [s for s in stmts if s.startswith("self.ordered_subpages")]
-    ok = ord_ == ["self.ordered_subpages = [x for x in self.meta.ordered_subpage if x != 'index.md']"]
+    ok = ord_ in (["self.ordered_subpages = [x for x in self.meta.ordered_subpage if x != 'index.md']"],
+                  ["self.ordered_subpages = [os.path.normpath(x) for x in self.meta.ordered_subpage if os.path.normpath(x) != 'index.md']"])
     out.append(OR(id=f"{prop}.S.PageNode.__init__.ordered_subpages_from_metadata", status=PROVED if ok else UNKNOWN, kind="S", role="pre", backend="ast", target="ford.pagetree.PageNode.__init__",
-                  desc="ordered_subpages is the ordered_subpage metadata in the order given, without index.md", detail="" if ok else f"found {ord_}"))
+                  desc="ordered_subpages is the ordered_subpage metadata in the order given (each entry as the directory entry it names: os.path.normpath), without index.md", detail="" if ok else f"found {ord_}"))
     return out
 
 
